@@ -358,6 +358,12 @@ Proof.
   - intros [m [Hm H]]. now rewrite (latest_activity_unique p _ _ (latest_is_latest p) Hm).
 Qed.
 
+Lemma monitor_predicates now maxAge p :
+  (is_staleb now maxAge p = true <-> is_stale now maxAge p) /\
+  (stale now maxAge p = true <-> is_stale now maxAge p) /\
+  (durably_running p = true <-> is_running p).
+Proof. split; [apply is_staleb_iff|split; [apply stale_iff|apply running_iff]]. Qed.
+
 (* ================= F. nothing is left Running in a closed plan ================= *)
 
 Lemma close_state_not_running stamp s : s_status (close_state stamp s) <> Running.
